@@ -5,6 +5,7 @@ import (
 	"go/ast"
 	"go/token"
 	"go/types"
+	"golang.org/x/tools/go/packages"
 	"sort"
 	"strings"
 )
@@ -455,10 +456,12 @@ func ruleAnyGate(c *Ctx) []Obligation {
 					} else {
 						o.Status, o.Detail = Discharged, "inside the check itself, used only for the recursive calls on function parameter types (arguments are validated where the function is called)"
 					}
+				} else if noneGuarded(p, fd, pos) {
+					o.Status, o.Detail = Discharged, how+" under a test that the checked expression is the `none` literal: the value is statically known and conforms to every option type"
 				} else if t := builtBy(pi, fd, 0); t != "" {
-					o.Status, o.Detail = Discharged, how + " in a function that builds " + t + ", for which the compiler emits the cast instruction"
+					o.Status, o.Detail = Discharged, how+" in a function that builds "+t+", for which the compiler emits the cast instruction"
 				} else {
-					o.Status, o.Detail = Violated, how + " in a function that builds none of the runtime-validated constructs (" + strings.Join(vnames, ", ") + "): a value whose type contains `any` is accepted here although nothing checks it at runtime"
+					o.Status, o.Detail = Violated, how+" in a function that builds none of the runtime-validated constructs ("+strings.Join(vnames, ", ")+"): a value whose type contains `any` is accepted here although nothing checks it at runtime"
 				}
 				obs = append(obs, o)
 			}
@@ -501,6 +504,39 @@ func ruleAnyGate(c *Ctx) []Obligation {
 		}
 	}
 	return obs
+}
+
+// noneGuarded: the statement at pos lies in the then-branch of an `if` whose condition (a conjunct of it) compares the
+// Kind() of an expression node with the none-literal kind constant.
+func noneGuarded(p *packages.Package, fd *ast.FuncDecl, pos token.Pos) bool {
+	found := false
+	ast.Inspect(fd.Body, func(n ast.Node) bool {
+		ifs, ok := n.(*ast.IfStmt)
+		if !ok || !(ifs.Body.Pos() <= pos && pos < ifs.Body.End()) {
+			return true
+		}
+		var conj func(e ast.Expr)
+		conj = func(e ast.Expr) {
+			e = ast.Unparen(e)
+			if be, ok := e.(*ast.BinaryExpr); ok {
+				if be.Op == token.LAND {
+					conj(be.X)
+					conj(be.Y)
+					return
+				}
+				if be.Op == token.EQL {
+					for _, side := range []ast.Expr{be.X, be.Y} {
+						if k := ResolveConst(p, fd, side, 0); k != nil && k.Name() == "NoneLiteralExpressionKind" {
+							found = true
+						}
+					}
+				}
+			}
+		}
+		conj(ifs.Cond)
+		return true
+	})
+	return found
 }
 
 // isFnParamType: e is `p.Type` (or a call on it such as p.Type.SetSpan(..)) where p is an element of a function type's
